@@ -129,7 +129,13 @@ theorem loop_err : ∀ (f m : Nat) (st : MK),
             rw [hr] at this; exact this
         · split
           · exact ⟨rfl, by simp⟩
-          · exact ⟨(loop_err f (m - 1) _).1, fun h => (loop_err f (m - 1) _).2 h⟩
+          · split
+            · dsimp only
+              split
+              · exact ⟨rfl, by simp⟩
+              · exact ⟨(loop_err f _ _).1, fun h => (loop_err f _ _).2 h⟩
+            · dsimp only
+              exact ⟨(loop_err f (m - 1) _).1, fun h => (loop_err f (m - 1) _).2 h⟩
 
 /-- nothing more will be handed out: the merge is over (`count = 0`) or stuck on a fault -/
 def Dead (st : MK) : Prop := st.initialized = true ∧ (st.count = 0 ∨ StuckSt st)
